@@ -67,7 +67,48 @@ def r1(fx):
                     yield Ob(f'{m}.{q}: raise {name}', True, f'{m}.{q}', n.lineno, name, f'allowed: {ALLOWED_OTHER[key]}', False)
                     continue
                 ok = _is_valueerror_family(fx, m, name)
-                yield Ob(f'{m}.{q}: raise {name}', ok, f'{m}.{q}', n.lineno, name, 'ValueError or a subclass', True)
+                why = 'ValueError or a subclass'
+                if not ok and name in ('argparse.ArgumentTypeError', 'ArgumentTypeError') and m == 'cli':
+                    # the protocol of an argparse `type=` converter: argparse reports it as a usage error (exit status 2)
+                    ok, why = True, 'allowed: argparse converter protocol'
+                if not ok and name == 'TypeError' and _type_guarded(n):
+                    # a value of another type than the documented option type is outside the property's domain
+                    ok, why = True, 'allowed: raised for a value of the wrong type (guarded by a type test)'
+                yield Ob(f'{m}.{q}: raise {name}', ok, f'{m}.{q}', n.lineno, name, why, True)
+
+
+def _type_guarded(raise_node):
+    """The raise sits under an `if` (or in the handler of a conversion) whose condition is a type test: isinstance / type() /
+    identity with True or False / callable()."""
+    def type_test(test):
+        for x in ast.walk(test):
+            if isinstance(x, ast.Call) and src.call_name(x) in ('isinstance', 'type', 'callable', 'issubclass', 'hasattr'):
+                return True
+        return False
+    # the fall-through of a chain of type tests that each leave the function: `if isinstance(..): return ..` ... `raise TypeError`
+    par = getattr(raise_node, '_parent', None)
+    for fld in ('body', 'orelse', 'finalbody'):
+        block = getattr(par, fld, None)
+        if isinstance(block, list) and raise_node in block:
+            before = block[:block.index(raise_node)]
+            if any(isinstance(st, ast.If) and type_test(st.test) and st.body and isinstance(st.body[-1], (ast.Return, ast.Raise)) for st in before):
+                return True
+    n = raise_node
+    while getattr(n, '_parent', None) is not None:
+        p = n._parent
+        if isinstance(p, ast.If) and n in p.body + p.orelse:
+            for x in ast.walk(p.test):
+                if isinstance(x, ast.Call) and src.call_name(x) in ('isinstance', 'type', 'callable', 'issubclass', 'hasattr'):
+                    return True
+                if isinstance(x, ast.Compare) and any(isinstance(o, (ast.Is, ast.IsNot)) for o in x.ops) and \
+                        any(isinstance(c, ast.Constant) and c.value in (True, False) for c in [x.left] + x.comparators):
+                    return True
+        if isinstance(p, ast.ExceptHandler) and p.type is not None and 'TypeError' in ast.unparse(p.type):
+            return True         # re-raised from a failed conversion (int(x), operator.index(x), ...)
+        if isinstance(p, (ast.FunctionDef, ast.Module)):
+            break
+        n = p
+    return False
 
 
 def _sweep(f, domain, expect):
@@ -449,8 +490,8 @@ def r6(fx):
             return True         # an identity test draws nothing
         if isinstance(par, ast.Call) and node in par.args:
             name = (src.call_name(par) or '').split('.')[-1]
-            if name == 'zip':
-                others = [a for a in par.args if a is not node]
+            if name == 'zip' or (name == 'map' and par.args and par.args[0] is not node):
+                others = [a for a in (par.args if name == 'zip' else par.args[1:]) if a is not node]
                 return bool(others) and any(not (isinstance(a, ast.Call) and unbounded(a)) for a in others)
             if name in ('islice', 'takewhile') and len(par.args) >= 2:
                 return True
@@ -476,6 +517,86 @@ def _progress(w):
         offset grows strictly, find returns -1 or a position >= the offset, positions are bounded by the length;
     (b) counter loop: a conjunct `v < B` / `v <= B` of the condition, `v += c` (c > 0) executed on every iteration, B not written."""
     body = w.body
+    # local aliases of bound search methods (`find = seq.find`): the call `find(p, o)` is `seq.find(p, o)`
+    fn_ = w
+    while getattr(fn_, '_parent', None) is not None and not isinstance(fn_, (ast.FunctionDef, ast.Module)):
+        fn_ = fn_._parent
+    alias = {}
+    if isinstance(fn_, ast.FunctionDef):
+        stores = {}
+        for n in src.walk_local(fn_):
+            if isinstance(n, ast.Name) and isinstance(n.ctx, ast.Store):
+                stores[n.id] = stores.get(n.id, 0) + 1
+        for n in src.walk_local(fn_):
+            if isinstance(n, ast.Assign) and len(n.targets) == 1 and isinstance(n.targets[0], ast.Name) and isinstance(n.value, ast.Attribute) \
+                    and n.value.attr in ('find', 'rfind', 'index') and stores.get(n.targets[0].id) == 1:
+                alias[n.targets[0].id] = n.value
+
+    def search_call(e):
+        """(sequence expr, method, args) of `seq.find(..)` / `alias(..)`, else None."""
+        if isinstance(e, ast.Call) and isinstance(e.func, ast.Attribute) and e.func.attr in ('find', 'rfind') and not e.keywords:
+            return e.func.value, e.func.attr, e.args
+        if isinstance(e, ast.Call) and isinstance(e.func, ast.Name) and e.func.id in alias and alias[e.func.id].attr in ('find', 'rfind') and not e.keywords:
+            return alias[e.func.id].value, alias[e.func.id].attr, e.args
+        return None
+
+    def leaves(test_var, stmts):
+        """An `if <var> < 0 / == -1 / is None ...: return / break` among stmts."""
+        for st in stmts:
+            if isinstance(st, ast.If) and st.body and isinstance(st.body[-1], (ast.Return, ast.Break, ast.Raise)):
+                t_ = ast.unparse(st.test).replace(' ', '')
+                if t_ in (f'{test_var}<0', f'{test_var}==-1', f'{test_var}<=-1', f'-1=={test_var}', f'0>{test_var}'):
+                    return True
+        return False
+    written_ = {n.id for s_ in body for n in ast.walk(s_) if isinstance(n, ast.Name) and isinstance(n.ctx, ast.Store)}
+    # (a') search loop through an alias or with `> -1` / `>= 0`: `while i != -1 | i > -1 | i >= 0: ...; i = find(p, i + k)`
+    tnorm = ast.unparse(w.test).replace(' ', '')
+    for iv in sorted(written_):
+        if tnorm in (f'{iv}!=-1', f'{iv}>-1', f'{iv}>=0', f'-1!={iv}', f'-1<{iv}', f'0<={iv}'):
+            for k, st in enumerate(body):
+                if isinstance(st, ast.Assign) and len(st.targets) == 1 and isinstance(st.targets[0], ast.Name) and st.targets[0].id == iv:
+                    sc = search_call(st.value)
+                    if sc is None or sc[1] != 'find' or len(sc[2]) < 2:
+                        continue
+                    try:
+                        a = nf.affine(sc[2][1])
+                    except Unknown:
+                        continue
+                    before = [n for s_ in body[:k] for n in ast.walk(s_) if isinstance(n, ast.Continue)]
+                    nstores = [n for s_ in body for n in ast.walk(s_) if isinstance(n, ast.Name) and isinstance(n.ctx, ast.Store) and n.id == iv]
+                    seq_names = {n.id for n in ast.walk(sc[0]) if isinstance(n, ast.Name)}
+                    if set(a) <= {iv, ''} and a.get(iv) == 1 and a.get('', 0) >= 1 and not before and len(nstores) == 1 and not (seq_names & written_):
+                        return f'{iv} = find(..., {iv} + {a[""]}) on every iteration (search loop)'
+    # (f) cutting loop: `while end - pos > width: cut = s.rfind(x, pos, ..); if cut < 0: return; ...; pos = cut + k` (k >= 1): the
+    # search starts at pos, so cut >= pos and pos grows strictly; the condition is decreasing in pos
+    if isinstance(w.test, ast.Compare) and len(w.test.ops) == 1 and isinstance(w.test.ops[0], (ast.Gt, ast.GtE)):
+        try:
+            lhs = nf.affine(w.test.left)
+        except Unknown:
+            lhs = None
+        if lhs is not None:
+            for pv in [v_ for v_, c_ in lhs.items() if v_ and c_ == -1 and v_ in written_]:
+                others = {n.id for n in ast.walk(w.test) if isinstance(n, ast.Name)} - {pv}
+                if others & written_:
+                    continue
+                for k, st in enumerate(body):
+                    if isinstance(st, ast.Assign) and len(st.targets) == 1 and isinstance(st.targets[0], ast.Name):
+                        cv = st.targets[0].id
+                        sc = search_call(st.value)
+                        if sc is None or len(sc[2]) < 2 or ast.unparse(sc[2][1]) != pv or not leaves(cv, body[k + 1:]):
+                            continue
+                        for k2 in range(k + 1, len(body)):
+                            s2 = body[k2]
+                            if isinstance(s2, ast.Assign) and len(s2.targets) == 1 and isinstance(s2.targets[0], ast.Name) and s2.targets[0].id == pv:
+                                try:
+                                    a = nf.affine(s2.value)
+                                except Unknown:
+                                    continue
+                                cont = [n for s_ in body[:k2] for n in ast.walk(s_) if isinstance(n, ast.Continue)]
+                                n_pv = [n for s_ in body for n in ast.walk(s_) if isinstance(n, ast.Name) and isinstance(n.ctx, ast.Store) and n.id == pv]
+                                n_cv = [n for s_ in body for n in ast.walk(s_) if isinstance(n, ast.Name) and isinstance(n.ctx, ast.Store) and n.id == cv]
+                                if set(a) <= {cv, ''} and a.get(cv) == 1 and a.get('', 0) >= 1 and not cont and len(n_pv) == 1 and len(n_cv) == 1:
+                                    return f'{cv} = {sc[1]}(.., {pv}, ..) >= {pv} or the loop is left; {pv} = {cv} + {a[""]} on every iteration; the condition decreases in {pv}'
     if any(isinstance(n, ast.Continue) for s_ in body for n in ast.walk(s_) if not isinstance(s_, (ast.For, ast.While))):
         # a `continue` could skip the progress statement: only accepted when it comes after it
         pass
@@ -712,10 +833,12 @@ def r9(fx):
         _model = ('terminal', 'save')
 
         def terminal(self, **kw):
-            log.append(('terminal', kw))
+            from .. import refsig
+            log.append(('terminal', refsig.drop_new_defaults(fx.forest, '__init__', 'QRCode.terminal', kw)))
 
         def save(self, out, **kw):
-            log.append(('save', out, kw))
+            from .. import refsig
+            log.append(('save', out, refsig.drop_new_defaults(fx.forest, '__init__', 'QRCode.save', kw)))
 
     class OS:
         _model = ('linesep',)
@@ -793,8 +916,10 @@ def r11(fx):
     it = Interp(max_steps=5_000_000)
 
     class ArgNS:
-        _model = ('ArgumentParser',)
+        _model = ('ArgumentParser', 'SUPPRESS', 'ArgumentTypeError')
         ArgumentParser = argparse.ArgumentParser
+        SUPPRESS = argparse.SUPPRESS
+        ArgumentTypeError = argparse.ArgumentTypeError
     segno_ns = ev.Namespace('segno', {'__version__': ev.const(fx.forest, '__init__', '__version__')})
     genv = callable_env(fx.forest, 'cli', it, {'argparse': ArgNS(), '_AttrDict': dict, 'segno': segno_ns})
     fn = fx.fn('cli', 'parse')
